@@ -259,6 +259,12 @@ func (w *world) do(o op) (ok bool, id int, dig string) {
 	case "Pair":
 		a, _ := pdf.StoreOrLoadPair(w.x, ref, &node{Self: o.Ref}, &nodeB{Self: o.Ref})
 		return true, w.id(a), ""
+	case "PredefinedFresh":
+		f, err := cmap.Predefined(freshCMaps[o.Ref%len(freshCMaps)])
+		if err != nil {
+			return false, 0, ""
+		}
+		return true, w.id(f), ""
 	case "Predefined":
 		names := []string{"Identity-H", "UniJIS-UTF16-H", "GBK-EUC-H", "90ms-RKSJ-H"}
 		f, err := cmap.Predefined(names[o.Ref%len(names)])
@@ -269,6 +275,12 @@ func (w *world) do(o op) (ok bool, id int, dig string) {
 	}
 	return false, 0, ""
 }
+
+// freshCMaps are predefined CMap names used for concurrent FIRST loads: every
+// round takes names nobody in this process has asked for yet and lets all
+// goroutines request them at the same moment (the package-level cache must
+// hand everybody the identical *File).
+var freshCMaps = []string{"78-EUC-H", "78-EUC-V", "78-H", "78-RKSJ-H", "78-RKSJ-V", "78-V", "78ms-RKSJ-H", "78ms-RKSJ-V", "83pv-RKSJ-H", "90ms-RKSJ-H", "90ms-RKSJ-V", "90msp-RKSJ-H", "90msp-RKSJ-V", "90pv-RKSJ-H", "90pv-RKSJ-V", "Add-H", "Add-RKSJ-H", "Add-RKSJ-V", "Add-V", "B5-H", "B5-V", "B5pc-H", "B5pc-V", "CNS-EUC-H", "CNS-EUC-V", "CNS1-H", "CNS1-V", "CNS2-H", "CNS2-V", "ETHK-B5-H", "ETHK-B5-V", "ETen-B5-H", "ETen-B5-V", "ETenms-B5-H", "ETenms-B5-V", "EUC-H", "EUC-V", "Ext-H", "Ext-RKSJ-H", "Ext-RKSJ-V", "Ext-V", "GB-EUC-H", "GB-EUC-V", "GB-H", "GB-V", "GBK-EUC-H", "GBK-EUC-V", "GBK2K-H", "GBK2K-V", "GBKp-EUC-H", "GBKp-EUC-V", "GBT-EUC-H", "GBT-EUC-V", "GBT-H", "GBT-V", "GBTpc-EUC-H", "GBTpc-EUC-V", "GBpc-EUC-H", "GBpc-EUC-V", "H", "HKdla-B5-H", "HKdla-B5-V", "HKdlb-B5-H", "HKdlb-B5-V", "HKgccs-B5-H", "HKgccs-B5-V", "HKm314-B5-H", "HKm314-B5-V", "HKm471-B5-H", "HKm471-B5-V", "HKscs-B5-H", "HKscs-B5-V", "Hankaku", "Hiragana", "Identity-H", "Identity-V", "KSC-EUC-H", "KSC-EUC-V", "KSC-H", "KSC-Johab-H", "KSC-Johab-V", "KSC-V", "KSCms-UHC-H", "KSCms-UHC-HW-H", "KSCms-UHC-HW-V", "KSCms-UHC-V", "KSCpc-EUC-H", "KSCpc-EUC-V", "Katakana", "NWP-H", "NWP-V", "RKSJ-H", "RKSJ-V", "Roman", "UniAKR-UTF16-H", "UniAKR-UTF32-H", "UniAKR-UTF8-H", "UniCNS-UCS2-H", "UniCNS-UCS2-V", "UniCNS-UTF16-H", "UniCNS-UTF16-V", "UniCNS-UTF32-H", "UniCNS-UTF32-V", "UniCNS-UTF8-H", "UniCNS-UTF8-V", "UniGB-UCS2-H", "UniGB-UCS2-V", "UniGB-UTF16-H", "UniGB-UTF16-V", "UniGB-UTF32-H", "UniGB-UTF32-V", "UniGB-UTF8-H", "UniGB-UTF8-V", "UniJIS-UCS2-H", "UniJIS-UCS2-HW-H", "UniJIS-UCS2-HW-V", "UniJIS-UCS2-V", "UniJIS-UTF16-H", "UniJIS-UTF16-V", "UniJIS-UTF32-H", "UniJIS-UTF32-V", "UniJIS-UTF8-H", "UniJIS-UTF8-V", "UniJIS2004-UTF16-H", "UniJIS2004-UTF16-V", "UniJIS2004-UTF32-H", "UniJIS2004-UTF32-V", "UniJIS2004-UTF8-H", "UniJIS2004-UTF8-V", "UniJISPro-UCS2-HW-V", "UniJISPro-UCS2-V", "UniJISPro-UTF8-V", "UniJISX0213-UTF32-H", "UniJISX0213-UTF32-V", "UniJISX02132004-UTF32-H", "UniJISX02132004-UTF32-V", "UniKS-UCS2-H", "UniKS-UCS2-V", "UniKS-UTF16-H", "UniKS-UTF16-V", "UniKS-UTF32-H", "UniKS-UTF32-V", "UniKS-UTF8-H", "UniKS-UTF8-V", "V", "WP-Symbol"}
 
 func main() {
 	seed := flag.Int64("seed", 1, "")
@@ -320,11 +332,20 @@ func main() {
 				progs[g] = append(progs[g], o)
 			}
 		}
+		// concurrent first loads of predefined CMaps nobody has loaded yet
+		fresh := []int{(round*2 + int(*seed)*7) % len(freshCMaps), (round*2 + 1 + int(*seed)*7) % len(freshCMaps)}
+		for g := range progs {
+			progs[g] = append([]op{{"PredefinedFresh", fresh[0]}, {"PredefinedFresh", fresh[1]}}, progs[g]...)
+		}
 		// solo outcomes on a fresh reader each (nothing cached)
 		solo := map[op][2]string{}
 		for _, p := range progs {
 			for _, o := range p {
 				if _, done := solo[o]; done {
+					continue
+				}
+				if o.Op == "PredefinedFresh" {
+					solo[o] = [2]string{"true", ""} // a predefined CMap always loads; not executed solo (that would fill the cache)
 					continue
 				}
 				sw := open(data)
